@@ -92,6 +92,17 @@ func init() {
 		}
 		s += "def callNativePrefix : List String := " + leanStrList(stmts) + "\n\n"
 
+		// checkNativeFunc without its result-count switch: the keyword / nil / not-a-function guards and the parameter loop
+		ck := findFunc(f, "", "checkNativeFunc")
+		var guards []string
+		for _, st := range ck.Body.List {
+			if _, ok := st.(*ast.SwitchStmt); ok {
+				continue
+			}
+			guards = append(guards, strings.Join(strings.Fields(c17StripComments(src(st))), " "))
+		}
+		s += "def checkNativeFuncGuards : List String := " + leanStrList(guards) + "\n\n"
+
 		// resolver: the native branch of the UserCallExpr argument-count check
 		r := parseFile("internal/resolver/resolve.go")
 		var cap int64 = -1
